@@ -51,7 +51,9 @@ def r4_1(ctx):
         need = {
             "worker is FREE": isinstance(e.heap.get((W.name, "state")), EnumSet) and e.heap[(W.name, "state")].members <= {"FREE"},
             "worker has a positive skill for the task": fact(e, f"<{W.name}>.has_workamount_skill(<{T.name}>.name)") is True,
-            "worker's team targets the task": any(v[0] is True and k.startswith("<self>.") and k.endswith(f"(<{W.name}>, <{T.name}>)") for k, v in e.facts.items()),
+            "worker's team targets the task": any(v[0] is True and ((k.startswith("<self>.") and k.endswith(f"(<{W.name}>, <{T.name}>)")) or
+                                                                     (k.startswith(f"<{T.name}> In ") and "targeted_task_list" in k and "team" in k.lower()))
+                                                  for k, v in e.facts.items()),
         }
         if F is None:
             need["can_add_resources(worker) holds and is fresh"] = fact(e, f"<{T.name}>.can_add_resources(worker=<{W.name}>)") is True
@@ -63,7 +65,9 @@ def r4_1(ctx):
             if isinstance(F, Obj) and ef is not None:
                 need["facility is FREE"] = isinstance(ef.heap.get((F.name, "state")), EnumSet) and ef.heap[(F.name, "state")].members <= {"FREE"}
                 need["facility has a positive skill for the task"] = fact(ef, f"<{F.name}>.has_workamount_skill(<{T.name}>.name)") is True
-                need["facility's workplace targets the task"] = any(v[0] is True and k.startswith("<self>.") and k.endswith(f"(<{F.name}>, <{T.name}>)") for k, v in ef.facts.items())
+                need["facility's workplace targets the task"] = any(
+                    v[0] is True and ((k.startswith("<self>.") and k.endswith(f"(<{F.name}>, <{T.name}>)")) or
+                                      (k.startswith(f"<{T.name}> In ") and "targeted_task_list" in k and "workplace" in k.lower())) for k, v in ef.facts.items())
                 need["facility belongs to the workplace where the task's component is placed"] = \
                     F.name.replace("task.", T.name + ".").startswith(f"{T.name}.target_component.placed_workplace.facility_list[")
             else:
@@ -79,7 +83,9 @@ def r4_1(ctx):
     # helpers mean what the facts are read as
     for helper_kind, coll, idattr, member_attr in (("worker", "team_list", "team_id", WORKER), ("facility", "workplace_list", "workplace_id", FACILITY)):
         hs = [g for g in ctx.repo.classes[PROJECT].methods.values() if g.name.endswith(f"is_allocated_{helper_kind}")]
-        ctx.require(len(hs) == 1, f"team/workplace targeting helper for {helper_kind} not found")
+        if len(hs) != 1:
+            ctx.note(f"no targeting helper for {helper_kind}: the site facts above must establish targeting directly")
+            continue
         h = hs[0]
         for own_targets, other_targets, exp in ((True, False, True), (False, True, False)):
             A, B = Obj("A", TEAM if helper_kind == "worker" else WORKPLACE), Obj("B", TEAM if helper_kind == "worker" else WORKPLACE)
